@@ -1,6 +1,7 @@
 import GoMailModel.Eml.Params
 import GoMailModel.Mime.Render
 import GoMailModel.Proofs.Fold
+import GoMailModel.Proofs.Split
 /-
   C10 — Render → parse → render preserves the message (PARTIAL).
   Proved here: the hand-written header parameter parser of eml.go reads back what the message
@@ -10,26 +11,6 @@ import GoMailModel.Proofs.Fold
 -/
 namespace GoMail.Props.C10
 open GoMail GoMail.Eml
-
-theorem splitOnAux_no_sep (sep : UInt8) (acc xs : Bytes) (h : ∀ b ∈ xs, b ≠ sep) :
-    splitOnAux sep acc xs = [acc.reverse ++ xs] := by
-  induction xs generalizing acc with
-  | nil => simp [splitOnAux]
-  | cons b rest ih =>
-    have hb : (b == sep) = false := by simpa using h b (by simp)
-    simp only [splitOnAux, hb, Bool.false_eq_true, if_false]
-    rw [ih (b :: acc) (fun x hx => h x (by simp [hx]))]
-    simp
-
-theorem splitOnAux_at_sep (sep : UInt8) (acc a b : Bytes) (h : ∀ x ∈ a, x ≠ sep) :
-    splitOnAux sep acc (a ++ sep :: b) = (acc.reverse ++ a) :: splitOnAux sep [] b := by
-  induction a generalizing acc with
-  | nil => simp [splitOnAux]
-  | cons x xs ih =>
-    have hx : (x == sep) = false := by simpa using h x (by simp)
-    simp only [List.cons_append, splitOnAux, hx, Bool.false_eq_true, if_false]
-    rw [ih (x :: acc) (fun y hy => h y (by simp [hy]))]
-    simp
 
 theorem splitEq2_at (k v : Bytes) (h : ∀ x ∈ k, x ≠ 61) : splitEq2 (k ++ 61 :: v) = [k, v] := by
   induction k with
